@@ -252,6 +252,7 @@ type c07Result struct {
 	switches    int64
 	pooled      int64 // list bindings served from a refilled buffer
 	setFlows    int64 // fresh library context, TryEval, Set, Eval
+	recycled    int64 // calls made with the goroutine's recycled Ctx object
 }
 
 // pooledVals returns vals with every []int64/[]string value copied into the goroutine's buffer of that name and length
@@ -375,6 +376,7 @@ func c07Run(w *W, idx int, race bool) {
 			tr.YieldMask = yield
 			tr.rng = uint32(gr.Int31())
 			bufs := map[string]interface{}{} // this goroutine's list buffers, one per (variable, length)
+			reuse := &eval.Ctx{}             // this goroutine's recycled context object
 			for c := 0; c < calls; c++ {
 				p := pool[gr.Intn(len(pool))]
 				bi := gr.Intn(len(p.bindings))
@@ -434,6 +436,12 @@ func c07Run(w *W, idx int, race bool) {
 					tr.MaxStack = p.maxStack
 					tr.Begin()
 					ctx := &eval.Ctx{VariableFetcher: fetcherFor(Binding{Vals: b.Vals}, nil), Ctx: ctxWithTracer(tr)}
+					if gr.Intn(2) == 0 {
+						// the caller recycles one Ctx object for all its calls and only replaces what it holds
+						reuse.VariableFetcher, reuse.Ctx = ctx.VariableFetcher, ctx.Ctx
+						ctx = reuse
+						res.recycled++
+					}
 					o := guard(func() (eval.Value, error) { return p.e.Eval(ctx) })
 					res.calls[0]++
 					if o.Err != nil {
@@ -452,6 +460,11 @@ func c07Run(w *W, idx int, race bool) {
 					tr.MaxStack = p.maxStack
 					tr.Begin()
 					ctx := &eval.Ctx{VariableFetcher: fetcherFor(b, nil), Ctx: ctxWithTracer(tr)}
+					if gr.Intn(2) == 0 {
+						reuse.VariableFetcher, reuse.Ctx = ctx.VariableFetcher, ctx.Ctx
+						ctx = reuse
+						res.recycled++
+					}
 					o := guard(func() (eval.Value, error) { return p.e.TryEval(ctx) })
 					res.calls[1]++
 					if !outcomeEq(o, p.expect[bi][1]) {
@@ -506,6 +519,7 @@ func c07Run(w *W, idx int, race bool) {
 		w.Count("hook_context_switches", res.switches)
 		w.Count("list_bindings_from_refilled_buffers", res.pooled)
 		w.Count("fresh_context_set_flows", res.setFlows)
+		w.Count("calls_with_recycled_ctx_object", res.recycled)
 		for i := int64(0); i < res.overlapping && i < 200; i++ {
 			w.Nontrivial(fmt.Sprint(w.Phase, w.Case), fmt.Sprint(g), fmt.Sprint(i))
 		}
